@@ -23,8 +23,8 @@ from ..core import pool_map
 MODULE = "modem/Ofdm.tla"
 DEVS = ["FreqResponseTruncates", "DcNotSkipped", "MapOffByOne", "CpFromHead", "ScaleNotInverted", "SymbolsFloor",
         "MemoryExceedsCp", "MemoNumbersByUsedOnly", "RejectedSetHalfUpdates", "PadKeepsOldData", "DemodScalesArgument",
-        "ScaleWrapsNarrowInt", "EqSkipsTinyResponse"]
-INVS = ["ObjectCoherent", "ArgumentsUnchanged", "EarlierResultsUnchanged", "ScaleLaw", "DiscLaw", "IndexMap", "ParamLaw", "PadLaw", "LenLaw", "PrefixIsTail", "DcAndGuardsEmpty", "CircularUnderCP",
+        "ScaleWrapsNarrowInt", "EqSkipsTinyResponse", "ModulateInBlocks", "EqMemoByIdentity"]
+INVS = ["ObjectCoherent", "ArgumentsUnchanged", "EarlierResultsUnchanged", "ScaleLaw", "DiscLaw", "LongLaw", "IndexMap", "ParamLaw", "PadLaw", "LenLaw", "PrefixIsTail", "DcAndGuardsEmpty", "CircularUnderCP",
         "WindowAligned", "UnmapReadsMap", "FreqIsHTimesX", "RoundTrip", "OneTapExact"]
 # which laws refute which deviation (TLC stops at the first violated invariant of the list it finds)
 DEV_REFUTED_BY = {
@@ -42,6 +42,8 @@ DEV_REFUTED_BY = {
     "DemodScalesArgument": ({(4, 1, 2)}, {"ArgumentsUnchanged"}),
     "ScaleWrapsNarrowInt": ({(16, 4, 10)}, {"ScaleLaw"}),        # run with the parameter types int8 / uint8
     "EqSkipsTinyResponse": ({(4, 1, 4)}, {"OneTapExact"}),       # run with the channel gains 1e-7 .. 1e7
+    "ModulateInBlocks": ({(8, 2, 6, 65537), (64, 16, 52, 70001)}, {"LongLaw"}),      # long-input star cases
+    "EqMemoByIdentity": ({(4, 1, 4), (8, 2, 4)}, {"OneTapExact"}),                   # histories with a realisation per use
 }
 PTYPES = ["int", "int8", "uint8", "int16", "uint16", "int32", "uint32", "int64", "uint64"]
 # The UNSIGNED scalar types broke the code as found (index map and prefix use unary minus / negative numbers on the
@@ -50,7 +52,8 @@ PTYPES = ["int", "int8", "uint8", "int16", "uint16", "int32", "uint32", "int64",
 JUDGED_PTYPES = PTYPES
 PENDING_PTYPES = []
 GAINS = list(range(-7, 8))
-HIST_DEVS = {"MemoNumbersByUsedOnly", "RejectedSetHalfUpdates", "PadKeepsOldData"}
+HIST_DEVS = {"MemoNumbersByUsedOnly": "none", "RejectedSetHalfUpdates": "none", "PadKeepsOldData": "none",
+             "EqMemoByIdentity": "one"}      # deviation -> tap layouts needed to see it
 # the quick history alphabet: the same used count under the all-carriers branch and under the centred branch at two fft
 # sizes (both orders occur), a change of every parameter, the smallest size; rejected calls: odd used, used > fft (both
 # with a valid <<fft, cp>> that differs from most current ones), cp > fft, used = 0
@@ -58,7 +61,7 @@ HIST_DEVS = {"MemoNumbersByUsedOnly", "RejectedSetHalfUpdates", "PadKeepsOldData
 HIST_VALID = [(4, 1, 4), (8, 2, 4), (8, 3, -1), (4, 0, 2), (2, 2, 2)]
 HIST_BAD = [(8, 1, 3), (4, 2, 6), (3, 1, -1), (2, 1, 0)]
 ROUTES = ["arrays", "profile", "discrete"]
-ACTIONS = ["ScaleStar", "Construct", "SetParameters", "UseLive", "StartLive", "Start", "MapStar", "ParamStar", "Pad", "Map", "Ifft", "AddCP", "Loop", "Transmit", "Crop", "RemoveCP",
+ACTIONS = ["LongStar", "ScaleStar", "Construct", "SetParameters", "UseLive", "StartLive", "Start", "MapStar", "ParamStar", "Pad", "Map", "Ifft", "AddCP", "Loop", "Transmit", "Crop", "RemoveCP",
            "Fft", "Unmap", "Equalize"]
 TOL = 1e-9
 # 16+ JVMs run side by side (one TLC worker each): keep their GC / JIT helper threads from oversubscribing the cores
@@ -68,16 +71,16 @@ FID = "FreqResponseTruncates"
 
 def model(configs=(), mapffts=(), paramffts=(), lenmode="two", patmode="dense", ndense=1, laymode="three",
           block=False, seed=0, dev=(), emit=True, histvalid=(), histbad=(), histmax=0, histfirst=None, usemax=1,
-          ptypes=("int",), scalecases=(), gains=(0,), routes=("int",)):
+          ptypes=("int",), scalecases=(), gains=(0,), routes=("int",), longcases=(), ownreal=False):
     d = {k: (k in dev) for k in DEVS}
     st = lambda xs: tlc.tla(set(xs)) if xs else "{}"
     defs = {"Configs": st([tuple(c) for c in configs]), "MapFfts": st(mapffts), "ParamFfts": st(paramffts),
             "HistFirst": st([tuple(c) for c in (histvalid if histfirst is None else histfirst)]),
-            "CallTypes": tlc.tla(list(JUDGED_PTYPES)), "PTypes": st(list(ptypes)), "ScaleCases": st([tuple(c) for c in scalecases]), "Gains": st(list(gains)), "Routes": st(list(routes)),
+            "CallTypes": tlc.tla(list(JUDGED_PTYPES)), "PTypes": st(list(ptypes)), "ScaleCases": st([tuple(c) for c in scalecases]), "LongCases": st([tuple(c) for c in longcases]), "Gains": st(list(gains)), "Routes": st(list(routes)),
             "HistValid": st([tuple(c) for c in histvalid]), "HistBad": st([tuple(c) for c in histbad]), "Dev": tlc.tla(d)}
     cfg = tlc.cfg_text(constants={"LenMode": tlc.tla(lenmode), "PatMode": tlc.tla(patmode), "NDense": str(ndense),
                                   "LayMode": tlc.tla(laymode), "Block": tlc.tla(bool(block)), "Seed": str(seed % 1000),
-                                  "HistMax": str(histmax), "UseMax": str(usemax)},
+                                  "HistMax": str(histmax), "UseMax": str(usemax), "OwnReal": tlc.tla(bool(ownreal))},
                        defs=defs, invariants=INVS + (["Emit"] if emit else []))
     return cfg, defs
 
@@ -210,6 +213,7 @@ class Ledger:
         self.items = []
         self.eqz = None       # live history: the equaliser object created right after the constructor call
         self.chans = None     # live history: channel objects kept from one use to the next
+        self.use_no = 0       # live history: number of the current use
 
     def keep(self, label, res):
         self.items.append((label, res, np.array(res, copy=True)))
@@ -334,13 +338,18 @@ def run_receiver(o, tx, m, d, known, ledger=None):
     gain = 10.0 ** ch.get("g", 0)       # every static realisation: the same layout at any overall gain
     ckey = tlc.json.dumps([ch, N + cp], sort_keys=True)
     cache = getattr(ledger, "chans", None)
-    if cache is not None and ckey in cache and not ch["block"]:
-        chan, vals, delays = cache[ckey]      # a live history: the next frame goes through the SAME (time-invariant) channel object
+    if cache is not None:
+        # channel objects that were not used by the previous use are DROPPED (with their impulse responses), as a simulation loop does
+        for k_ in [k_ for k_, v_ in cache.items() if v_[3] < ledger.use_no - 1]:
+            del cache[k_]
+    if cache is not None and ckey in cache:
+        chan, vals, delays, _ = cache[ckey]   # a live history: the next frame goes through the SAME (time-invariant) channel object
+        cache[ckey] = (chan, vals, delays, ledger.use_no)
     else:
         chan, vals, delays = make_channel(ch["taps"], N + cp, ch["block"], gint([t[1] for t in ch["taps"]]) * gain,
                                           ch.get("route", "int"), ch.get("raw", ()))
-        if cache is not None:
-            cache[ckey] = (chan, vals, delays)
+        if cache is not None and not ch["block"]:
+            cache[ckey] = (chan, vals, delays, ledger.use_no)
     rxfull = call("corrupt_data", chan.corrupt_data, [tx.copy()], d["chan"].get("req", ()), ledger)
     mem = d["chan"]["out"]["mem"]
     if rxfull.shape != (n + mem,):
@@ -376,7 +385,9 @@ def run_receiver(o, tx, m, d, known, ledger=None):
         raise Bad("RemoveCP/Fft/Unmap: demodulated values differ from the specified ones")
     if "eq" not in d:
         return
-    eqz = getattr(ledger, "eqz", None) or OfdmOneTapEqualizer(o)   # a live history keeps ONE equaliser object
+    if ledger.eqz is None:
+        ledger.eqz = OfdmOneTapEqualizer(o)     # ONE equaliser object per chain / per live history, across all realisations
+    eqz = ledger.eqz
     eq = call("equalize_data", eqz.equalize_data, [dem.copy(), ir], d["eq"].get("req", ()), ledger)
     if not close(eq, gint(d["eq"]["out"]["exp"])):
         if d["eq"]["out"]["corner"] and gain == 1.0:
@@ -453,7 +464,8 @@ def run_random(o, m, d, rng, known, ledger=None):
     gexp = rng.uniform(-7, 7)
     vals = np.concatenate([[3 * np.exp(2j * np.pi * rng.uniform())],
                            rng.uniform(0.2, 1, k - 1) * np.exp(2j * np.pi * rng.uniform(size=k - 1))]) * 10.0 ** gexp
-    cases = [("random complex taps, gain 1e%.1f" % gexp, vals, TOL)]
+    vals2 = (rng.uniform(0.2, 1, k) * np.exp(2j * np.pi * rng.uniform(size=k))) * np.r_[4.0, np.ones(k - 1)]
+    cases = [("random complex taps, gain 1e%.1f" % gexp, vals, TOL), ("a second random realisation", vals2, TOL)]
     if k >= 2 and not d["eq"]["out"]["corner"]:
         # a deep but NON-ZERO fade (|H| = 3e-7) on one used bin k0: h = [1, -(1 - 3e-7) e^{+2 pi i k0 (d1 - d0) / N}, 0, ...]
         # (exact zeros inside the tap array included); error amplification 1/|H| ~ 3e6 -> tolerance 1e-6
@@ -464,17 +476,21 @@ def run_random(o, m, d, rng, known, ledger=None):
         cases.append(("deep non-zero fade |H| = 3e-7 on bin %d" % k0, fade, 1e-6))
     if ch.get("route", "int") != "int":
         run_library_channel(o, m, d, ch, tx, want, rng)
+    # the SAME equaliser object serves every realisation; the channel and impulse-response objects of one realisation are
+    # dropped before the next one is created (a simulation loop): nothing may survive in the equaliser from one to the next
+    if ledger.eqz is None:
+        ledger.eqz = OfdmOneTapEqualizer(o)
+    chan = args = None
     for what, v, tol in cases:
         chan, _, _ = make_channel(ch["taps"], N + cp, ch["block"], v, ch.get("route", "int"), ch.get("raw", ()))
         rx = call("corrupt_data", chan.corrupt_data, [tx.copy()], d["chan"].get("req", ()), ledger, readonly=True)[:len(tx)].copy()
         dem = call("demodulate", o.demodulate, [rx], d["dem"].get("req", ()), ledger, readonly=True)
-        eq = call("equalize_data", OfdmOneTapEqualizer(o).equalize_data, [dem, chan.get_last_impulse_response()],
-                  d["eq"].get("req", ()), ledger, readonly=True)
+        args = [dem, chan.get_last_impulse_response()]
+        eq = call("equalize_data", ledger.eqz.equalize_data, args, d["eq"].get("req", ()), ledger, readonly=True)
+        chan = args = None
         if eq.shape != want.shape or not np.all(np.isfinite(eq)) or np.abs(eq - want).max() > tol * max(1.0, np.abs(want).max()):
-            if d["eq"]["out"]["corner"]:
-                known.append("OneTapExact fails for cp = fft = memory (random complex taps): truncated frequency response")
-                return
-            raise Bad(f"OneTapExact ({what}, random complex data): equalised symbols are not the transmitted symbols")
+            raise Bad(f"OneTapExact ({what}, random complex data): equalised symbols are not the transmitted symbols"
+                      + (" (cp = fft = memory)" if d["eq"]["out"]["corner"] else ""))
 
 
 def check_chain(case, o=None, ledger=None):
@@ -484,6 +500,7 @@ def check_chain(case, o=None, ledger=None):
     rng = np.random.RandomState((case.get("seed", 0) * 7919 + sum((i + 1) * int(v) for i, v in enumerate(m["input"]["id"][:4]))) % (2 ** 31))
     try:
         ledger = Ledger() if ledger is None else ledger
+        ledger.use_no += 1
         o, tx, _ = run_modulator(m, o, ledger)
     except Bad as b:
         return [(b.what, b.fid, -1)], 0
@@ -506,6 +523,14 @@ def check_chain(case, o=None, ledger=None):
 
 
 def check_history(h):
+    """comparisons are total: an exception of the code under test anywhere in a history is a verdict"""
+    try:
+        return _check_history(h)
+    except Exception as ex:
+        return [(f"history: the code under test raised {type(ex).__name__}: {ex}", None)], 0, len(h["steps"]) - 1
+
+
+def _check_history(h):
     """h = {"steps": [{"call": edge, "chains": [chain]}, ...], "seed": n}: ONE live object.  A step is a configuration call
     (["cfg", N, cp, u]: constructor, accepted or rejected set_parameters - checked: accepted/rejected, the public parameters)
     or a use (["use", L, k, 0]: a full chain on the live object: modulate(x_k) ... equalize_data).  Results of earlier calls
@@ -590,8 +615,46 @@ def check_scalecase(e):
     return None
 
 
+def check_longcase(e):
+    """(rel) ONE very long input (random complex symbols): emitted length, round trip = symbols followed by the specified number
+    of zeros, through a two-tap channel of full memory and the equaliser as well; arguments unchanged."""
+    from pyphysim.modulators.ofdm import OFDM, OfdmOneTapEqualizer
+    N, cp, u, L = e["id"][:4]
+    what = f"long input fft={N} cp={cp} used={u} length={L}: "
+    rng = np.random.RandomState(L % 100003)
+    x = rng.uniform(-1, 1, L) + 1j * rng.uniform(-1, 1, L)
+    want = np.concatenate([x, np.zeros(e["out"]["pad"])])
+    o = OFDM(N, cp, u)
+    try:
+        tx = call("modulate", o.modulate, [x.copy()], ("RepeatableCall",))
+        if tx.shape != (e["out"]["txlen"],):
+            return what + f"LenLaw: modulate returned {tx.shape} samples, specified {e['out']['txlen']} = {e['out']['ns']} symbols x (fft+cp)"
+        dem = call("demodulate", o.demodulate, [tx.copy()], ())
+        if not close(dem, want):
+            j = int(np.argmax(np.abs(dem - want) > 1e-9)) if dem.shape == want.shape else -1
+            return what + f"RoundTrip: demodulate(modulate(x)) is not x followed by {e['out']['pad']} zeros (first difference at element {j})"
+        chan, _, _ = make_channel([[0, [3, 0]], [cp, [0, 1]]] if cp else [[0, [1, 1]]], N + cp, False)   # dominant first tap: no spectral null
+        rx = call("corrupt_data", chan.corrupt_data, [tx.copy()], ())[:len(tx)].copy()
+        eq = call("equalize_data", OfdmOneTapEqualizer(o).equalize_data, [np.asarray(o.demodulate(rx)), chan.get_last_impulse_response()], ())
+        if not close(eq, want):
+            return what + "OneTapExact: equalised symbols are not the transmitted symbols followed by zeros"
+    except Bad as b:
+        return what + b.what
+    return None
+
+
 def check_star(e):
+    """comparisons are total: whatever the code under test raises while a star case is evaluated is a verdict"""
+    try:
+        return _check_star(e)
+    except Exception as ex:
+        return f"star case {e['step']} {e['id'][:4]}: the code under test raised {type(ex).__name__}: {ex}"
+
+
+def _check_star(e):
     from pyphysim.modulators.ofdm import OFDM
+    if e["step"] == "longcase":
+        return check_longcase(e)
     N, cp, u = e["id"][0], e["id"][1], e["id"][2]
     if e["step"] == "mapcase":
         got = [int(i) for i in OFDM(N, 0, u).get_used_subcarrier_indexes()]
@@ -616,7 +679,7 @@ def chains(emitted):
     mods, rcvs, stars, calls = {}, {}, [], {}
     for e in emitted:
         st = e["step"]
-        if st in ("mapcase", "param", "scalecase"):
+        if st in ("mapcase", "param", "scalecase", "longcase"):
             stars.append(e)
             continue
         if st == "call":
@@ -704,7 +767,7 @@ def partition(job):
             res["viol"].append((w, None, {"star": e}))
         else:
             res["ok"] += 1
-            res["keys"].append(f"{e['step']}{e['id'][:3]}")
+            res["keys"].append(f"{e['step']}{e['id'][:4]}")
     for c in cs:
         c["seed"] = kw.get("seed", 0)
         bad, okc = check_chain(c)
@@ -750,9 +813,11 @@ def partition(job):
 
 def dev_job(job):
     dev, configs, allowed = job
-    if dev in HIST_DEVS:
-        cfg, defs = model(histvalid=configs, histbad=HIST_BAD[:2], histmax=3, usemax=2, lenmode="pair", patmode="dense",
-                          laymode="none", dev=[dev], emit=False)
+    if dev == "ModulateInBlocks":
+        cfg, defs = model(longcases=configs, dev=[dev], emit=False)
+    elif dev in HIST_DEVS:
+        cfg, defs = model(histvalid=configs, histbad=HIST_BAD[:2], histmax=3 if HIST_DEVS[dev] == "none" else 1, usemax=2,
+                          lenmode="pair", patmode="dense", laymode=HIST_DEVS[dev], dev=[dev], emit=False, ownreal=True)
     else:
         cfg, defs = model(configs=configs, mapffts=[4, 8], lenmode="two", patmode="dense", laymode="three", dev=[dev],
                           emit=False, ptypes=["int", "int8", "uint8"] if dev == "ScaleWrapsNarrowInt" else ["int"],
@@ -792,6 +857,11 @@ def cost_all3(c):       # one chain per delay subset of size <= 3
     return cost(c) * (m + m * (m - 1) // 2 + m * (m - 1) * (m - 2) // 6 + 3)
 
 
+# one very long input each: lengths just above 2^12 .. 2^17, used counts that do not divide the power of two (and one that does)
+LONG_CASES = [(6, 1, 4, 4097), (12, 3, 10, 32769), (8, 2, 6, 65537), (64, 16, 52, 70001), (16, 4, 10, 131075), (4, 0, 2, 65539)]
+LONG_MORE = [(64, 0, 64, 65601), (60, 7, 52, 16411), (8, 8, 6, 262147), (16, 16, 14, 196613), (10, 1, 6, 8195), (64, 16, 52, 131073)]
+
+
 def plan(tier, seed):
     jobs = []
 
@@ -811,7 +881,7 @@ def plan(tier, seed):
     # (the specification's Fits with L = 1: every size the API exposes is representable in the type)
     scalecases = [c + (t,) for c in big for t in JUDGED_PTYPES if max(c[0] + c[1], c[2]) <= pmax[t]]
     jobs.append({"label": "stars", "w": 1e12, "model": dict(mapffts=list(range(2, 65)), paramffts=[2, 3, 4, 6, 8], seed=seed,
-                                                             scalecases=scalecases)})
+                                                             scalecases=scalecases, longcases=LONG_CASES if tier == "quick" else LONG_CASES + LONG_MORE)})
     # parameter scalar types: full chains for sizes at the 8-bit thresholds of fft^2 (12, 16), small and non-pow2 sizes
     tcfg = [(4, 1, 4), (8, 2, 4), (8, 8, 8), (12, 5, 10), (16, 4, 10), (16, 16, 16), (60, 7, 52), (6, 0, 2)]
     jobs.append({"label": "ptypes", "w": 7e10, "model": dict(configs=tcfg, ptypes=PTYPES, seed=seed, lenmode="isi",
@@ -840,7 +910,7 @@ def plan(tier, seed):
         # (one / two symbols, full and partial, same symbol count) for every configuration of fft <= 4 and four of fft 8
         jobs.append({"label": "uses", "w": 9e10, "model": dict(
             histfirst=configs_of([2, 4]) + [(8, 2, 4), (8, 3, 8), (8, 0, 6), (8, 8, 2)], histmax=1, usemax=3, seed=seed,
-            lenmode="uses", patmode="dense", ndense=1, laymode="one")})
+            lenmode="uses", patmode="dense", ndense=1, laymode="one", ownreal=True)})
         # uses before and after a (possibly rejected) reconfiguration: 2 uses {2u, u+1}, call, 2 uses
         jobs.append({"label": "reuse", "w": 8e10, "model": dict(
             histfirst=HIST_VALID, histvalid=[(8, 2, 4), (4, 1, 4)], histbad=[(8, 1, 3)], histmax=2, usemax=2, seed=seed,
@@ -871,7 +941,7 @@ def plan(tier, seed):
                 histfirst=[c], histvalid=HIST_VALID, histbad=HIST_BAD, histmax=4, usemax=1, seed=seed, lenmode="isi", patmode="dense", ndense=1, laymode="none")})
         for i, first in enumerate(split(pow2, 4)):   # every sequence of 3 uses for every configuration of fft <= 8
             jobs.append({"label": f"uses/{i}", "w": 1e10, "model": dict(
-                histfirst=first, histmax=1, usemax=3, seed=seed, lenmode="uses", patmode="dense", ndense=1, laymode="one")})
+                histfirst=first, histmax=1, usemax=3, seed=seed, lenmode="uses", patmode="dense", ndense=1, laymode="one", ownreal=True)})
         for i, c in enumerate(HIST_VALID):           # 2 uses, call, 2 uses, call, 2 uses
             jobs.append({"label": f"reuse/{i}", "w": 1e10, "model": dict(
                 histfirst=[c], histvalid=HIST_VALID[:3], histbad=HIST_BAD[:2], histmax=3, usemax=2, seed=seed,
